@@ -1639,7 +1639,7 @@ MANIFEST = {
                    "percentiles in (0,1] and request sequences; the model is tied to the code on every run by an in-Coq correspondence (exhaustive small-n "
                    "enumeration, sampled and ulp-adversarial percentiles, function level, through EnsembleEvaluator.calculate for functions and gradients, "
                    "and through optimizer / evaluator steps)."),
-    "level_note": ("Proved (Props/C04.v, 21 theorems, all 'Closed under the global context'): C04_staircase, C04_exact_zeros, C04_failed_zero, C04_fraction_bounds, "
+    "level_note": ("Later proof items (Proofs/FiltersStair.v): the tolerance-based predicate `stair_ok` that judges the implementation near p*n-integers is proved sound and complete - C04_checker_sound, C04_checker_near_staircase, C04_checker_rank_exact, C04_checker_accepts_every_tie_order, C04_checker_accepts_model, C04_checker_exact. Proved (Props/C04.v, 21 theorems, all 'Closed under the global context'): C04_staircase, C04_exact_zeros, C04_failed_zero, C04_fraction_bounds, "
                    "C04_nonneg, C04_sum_p, C04_tail_mean, C04_worst_objective, C04_worst_constraint, C04_worst_direction, C04_empty_is_too_few_objective/_constraint, "
                    "C04_unique, C04_unique_distinct, C04_tie_robust + C04_model_is_along (the code along ANY ranking argsort may return), C04_tail_mean_tie_invariant, "
                    "C04_reported_value (the value the evaluator reports is the tail mean), C04_gradient_tail_mean, C04_abort_is_too_few, C04_checker_sound_exact.  "
